@@ -298,7 +298,7 @@ coverage::intersect (uint64_t start, uint64_t length) const
     {
       auto j = r_i - 1;
       if (start < j->start + j->length)
-	ret.add (start, j->start + j->length - start);
+	ret.add (start, std::min (j->start + j->length, a_end) - start);
     }
 
   // Handle intersection with following ranges.
